@@ -31,6 +31,12 @@ MUTATIONS = [
     ("tlexport/quic/quic_session.py", "expected_pkn = largest_pkn + 1", "expected_pkn = largest_pkn", "get_full_packet_number: expected = largest"),
     ("tlexport/quic/quic_session.py", "candidate_pkn = (expected_pkn & ~pkn_mask) | truncated_pkn", "candidate_pkn = (expected_pkn & ~pkn_window) | truncated_pkn", "get_full_packet_number: mask is the window"),
     ("tlexport/quic/quic_session.py", "return int.to_bytes(out_pkn, 8, \"big\", signed=False)", "return int.to_bytes(out_pkn, 4, \"big\", signed=False)", "get_full_packet_number: 4-byte result"),
+    ("tlexport/quic/quic_session.py", "            if out_pkn > self.packet_number_server[PACKET_TYPE_MAP[quic_packet.packet_type]]:\n", "            self.packet_number_server[PACKET_TYPE_MAP[quic_packet.packet_type]] = out_pkn\n            if out_pkn > self.packet_number_server[PACKET_TYPE_MAP[quic_packet.packet_type]]:\n", "set_largest_packet_number: store before compare"),
+    ("tlexport/quic/quic_session.py", "            if out_pkn > self.packet_number_client[PACKET_TYPE_MAP[quic_packet.packet_type]]:\n", "            if out_pkn < self.packet_number_client[PACKET_TYPE_MAP[quic_packet.packet_type]]:\n", "set_largest_packet_number: keeps the smallest"),
+    ("tlexport/quic/quic_session.py", "            if out_pkn > self.packet_number_server[PACKET_TYPE_MAP[quic_packet.packet_type]]:\n                self.packet_number_server[PACKET_TYPE_MAP[quic_packet.packet_type]] = out_pkn\n", "            if out_pkn > self.packet_number_server[PACKET_TYPE_MAP[quic_packet.packet_type]]:\n                self.packet_number_client[PACKET_TYPE_MAP[quic_packet.packet_type]] = out_pkn\n", "set_largest_packet_number: wrong direction's table"),
+    ("tlexport/quic/quic_session.py", "        out_pkn = int.from_bytes(packet_number, \"big\", signed=False)\n        if quic_packet.isserver:", "        out_pkn = int.from_bytes(packet_number, \"big\", signed=False)\n        if not quic_packet.isserver:", "set_largest_packet_number: directions swapped"),
+    ("tlexport/quic/quic_session.py", "        out_pkn = int.from_bytes(packet_number, \"big\", signed=False)\n        if quic_packet.isserver:", "        out_pkn = int.from_bytes(packet_number[-4:], \"big\", signed=False)\n        if quic_packet.isserver:", "set_largest_packet_number: only the low 4 bytes"),
+    ("tlexport/quic/quic_session.py", "        return int.to_bytes(out_pkn, 8, \"big\", signed=False)\n", "        if out_pkn > largest_pkn and quic_packet.isserver:\n            self.packet_number_server[PACKET_TYPE_MAP[quic_packet.packet_type]] = out_pkn\n        return int.to_bytes(out_pkn, 8, \"big\", signed=False)\n", "get_full_packet_number: writes the table before authentication again"),
     ("tlexport/quic/quic_session.py", "                self.epoch_server += 1", "                self.epoch_server += 2", "check_key_epoch: epoch advances by 2"),
     ("tlexport/quic/quic_session.py", "self.epoch_client == len(self.decryptors[\"Application\"]) or self.epoch_server == len(", "self.epoch_client == len(self.decryptors[\"Application\"]) and self.epoch_server == len(", "check_key_epoch: or became and"),
     ("tlexport/quic/quic_session.py", "if len(dcid) > 0 and dcid in self.server_cids and dcid not in self.client_cids:", "if len(dcid) > 0 and dcid in self.server_cids:", "packet_isserver: shared CID decides again"),
@@ -59,6 +65,8 @@ MUTATIONS = [
 
 # behaviour-preserving rewrites: (file, [(old, new)…], what)
 REWRITES = [
+    ("tlexport/quic/quic_session.py", [("            if out_pkn > self.packet_number_client[PACKET_TYPE_MAP[quic_packet.packet_type]]:\n", "            if out_pkn >= self.packet_number_client[PACKET_TYPE_MAP[quic_packet.packet_type]]:\n")],
+     "set_largest_packet_number: `>=` for `>` (storing an equal number changes nothing)"),
     ("tlexport/quic/quic_session.py", [(r"\blargest_pkn\b", "largest", "re")], "get_full_packet_number: local renamed"),
     ("tlexport/session.py", [("        self.server_cipher_change = False\n        self.client_cipher_change = False\n        self.handshake_13_buffer = {}\n",
                               "        self.client_cipher_change = False\n        self.server_cipher_change = False\n        self.handshake_13_buffer = {}\n")],
@@ -78,7 +86,7 @@ def group_of(what):
     """the group(s) whose theorems a mutation/rewrite labelled `what` concerns"""
     fn = what.split(":")[0]
     table = {"get_header_type": ["QuicDissect"], "get_packet_type": ["QuicDissect"], "decode_variable_length_int": ["Varint"],
-             "get_variable_length_int_length": ["Varint"], "get_full_packet_number": ["Pn"], "check_key_epoch": ["QuicSess"],
+             "get_variable_length_int_length": ["Varint"], "get_full_packet_number": ["Pn"], "set_largest_packet_number": ["Pn"], "check_key_epoch": ["QuicSess"],
              "packet_isserver": ["QuicSess"], "matches_session_dgram": ["QuicSess"], "handle_alert": ["TlsSess"],
              "handle_tls_client_hello": ["TlsSess"], "server hello": ["TlsSess"], "set_client_and_server_ports": ["Ports"],
              "matches_session": ["Demux"], "run": ["Demux"], "OutputBuilder": ["Ports"], "QUICOutputbuilder": ["Ports"],
@@ -147,8 +155,12 @@ def edit(root, file, pairs):
 
 
 def mutation_test():
+    # the scratch copy is a worktree of the commit the tree under test (`TLX_REPO`, default /repo) stands at
+    base = os.path.realpath(fw.REPO)
+    head = subprocess.run(["git", "-C", base, "rev-parse", "HEAD"], check=True, capture_output=True, text=True).stdout.strip()
+    print(f"  base tree: {base} at {head[:7]}")
     subprocess.run(["git", "-C", "/repo", "worktree", "remove", "--force", SCRATCH], capture_output=True)
-    subprocess.run(["git", "-C", "/repo", "worktree", "add", "--detach", SCRATCH, "HEAD"], check=True, capture_output=True)
+    subprocess.run(["git", "-C", "/repo", "worktree", "add", "--detach", SCRATCH, head], check=True, capture_output=True)
     rows, ok = [], True
     try:
         st, det, failed = build_props(SCRATCH)
@@ -176,13 +188,27 @@ def mutation_test():
             print(f"  REWRITE {note} [{st}] {what}: {'; '.join(str(d)[:120] for d in det[:3])}  ({time.time() - t0:.1f} s)")
     finally:
         subprocess.run(["git", "-C", "/repo", "worktree", "remove", "--force", SCRATCH], capture_output=True)
-        st, det, failed = build_props("/repo")               # leave the generated file as the unmodified /repo gives it
-        print(f"  restored from /repo: {st}")
+        st, det, failed = build_props(base)                  # leave the generated files as the unmodified tree gives them
+        print(f"  restored from {base}: {st}")
         ok &= st == "proved"
     return ok, rows
 
 
+def expect_broken(groups):
+    """`--expect-broken=Pn`: regenerate from the tree under test and assert that exactly these groups do not build"""
+    st, det, failed = build_props(fw.REPO)
+    print(f"repo under test: {fw.REPO}\noutcome: {st}; groups that do not build: {sorted(failed)}; expected: {sorted(groups)}")
+    for d in det[:6]:
+        print("  ", str(d)[:300])
+    ok = failed == set(groups)
+    print("RESULT", "ok (exactly the expected groups are broken)" if ok else "FLAGGED")
+    return 0 if ok else 1
+
+
 def main():
+    for a in sys.argv[1:]:
+        if a.startswith("--expect-broken="):
+            return expect_broken([g for g in a.split("=", 1)[1].split(",") if g])
     t0 = time.time()
     ctx = fw.Ctx("C16", os.environ.get("VERIF_TIER", "quick"), int(os.environ.get("VERIF_SEED", "0") or 0))
     translate.regen_into(ctx)
